@@ -251,7 +251,7 @@ def r03_5_shared(repo: Repo, rep: Report):
     # operation modelled wrongly (C06), a query that is not the path's constraints or a refinement that is not exact
     # (C11, C04 R04.2), an unsound cache hit (C16), state shared between sibling paths (C20 R20.1/R20.2), an
     # assert/assume cheatcode with another meaning (C13), or an option of the test's own annotation that is dropped
-    # (C18 R18.2/R18.7, e.g. --panic-error-codes).  Their rules are evaluated here too.
+    # (C18 R18.2/R18.4/R18.7, e.g. --panic-error-codes leaking from or dropped for a test).  Their rules are evaluated here too.
     from hsa.rules import c02, c04, c06, c11, c13, c16, c18, c20
 
     shared = [
@@ -261,7 +261,7 @@ def r03_5_shared(repo: Repo, rep: Report):
         c11.r11_2_constraint_ownership, c11.r11_3_dump_writer_reader, c11.r11_4_refine,
         c13.r13_2_mk_cond, c13.r13_3_sign_and_arity, c13.r13_5_branching,
         c16.r16_1_core_recording, c16.r16_3_ids_equal_asserted, c16.r16_4_id_stability, c16.r16_5_scope,
-        c18.r18_2_lookup, c18.r18_7_override_forwarding,
+        c18.r18_2_lookup, c18.r18_4_scoping, c18.r18_7_override_forwarding,
         c20.r20_1_fork_copies, c20.r20_2_inactive_paths,
     ]
     seen = set()
